@@ -34,8 +34,20 @@ def unordered_graphs(n, d, **kw):
     return gs
 
 
+FIELD_KINDS = ["string", "integer", "str-enum", "nullable-enum", "nullable-string", "nullable-inline-object", "inline-object", "nullable-array",
+               "arr-string", "ref", "nullable-ref", "date-time", "ref-enum", "oneof-ref-string"]
+
+
 def cases(tier, seed):
     out = []
+    # property-order orbit of every ordered pair / triple of field kinds (required and optional): the emitted annotations must not depend on order
+    import itertools as _it
+
+    for req in (True, False):
+        for a, b in _it.combinations(FIELD_KINDS, 2):
+            out.append({"kind": "fieldorder", "kinds": [a, b], "required": req})
+    for a, b, c in _it.combinations(["nullable-enum", "str-enum", "nullable-inline-object", "inline-object", "nullable-string", "string"], 3):
+        out.append({"kind": "fieldorder", "kinds": [a, b, c], "required": True})
     for name in docs.names():
         for r in RENDERINGS:
             out.append({"kind": "render", "doc": name, "rendering": r})
@@ -236,7 +248,41 @@ def run_orders(case):
             "sample": {"graph": graphs.describe(base_case), "menu": case["menu"], "orders": len(perms)}}
 
 
+def run_fieldorder(case):
+    from ..space import fields
+
+    import itertools as _it
+
+    kinds = case["kinds"]
+    names = ["alpha", "beta", "gamma"][: len(kinds)]
+    found = []
+    base = None
+    n = 0
+    nontriv = []
+    for perm in _it.permutations(range(len(kinds))):
+        fcase = {"fields": [{"name": names[i], "kind": kinds[i], "required": case["required"], "default": False} for i in perm]}
+        doc = fields.pack_doc([fcase])
+        with sandbox.scratch() as d:
+            root = os.path.join(d, "proj")
+            files, err = sandbox.generate(doc, root)
+            n += 1
+            m = {"rejected": type(err).__name__} if err is not None else observe.code_field_annotations(os.path.join(root, "cli"), "M0")
+        label = f"fields {dict(zip(names, kinds))} required={case['required']}|order={[names[i] for i in perm]}"
+        if base is None:
+            base = (label, m)
+            continue
+        nontriv.append(label)
+        if m != base[1]:
+            diff = first_diff(base[1] or {}, m or {})
+            found.append({"sig": "C19|property-order|emitted field annotations differ between property orders", "key": label,
+                          "msg": f"{label}: {diff} (base {base[0]})"})
+    return {"findings": found[:1] + found[1:], "evals": n, "nontrivial": nontriv, "nontrivial_multi": True,
+            "outcome": "fieldorder:" + ("differs" if found else "same"), "sample": {"fields": kinds, "required": case["required"], "orders": n}}
+
+
 def run_case(case):
+    if case["kind"] == "fieldorder":
+        return run_fieldorder(case)
     if case["kind"] == "render":
         return run_render(case)
     if case["kind"] == "paths":
